@@ -52,6 +52,46 @@ def main():
     sys.exit(rc)
 
 
+def impl_frames(e):
+    """frames of the traceback of e that lie inside the implementation under test (or code the plugin generated from it)"""
+    tb = traceback.extract_tb(e.__traceback__)
+    src = os.path.join(os.environ.get("VERIF_REPO", "/repo"), "src", "betterproto")
+    inside = [fr for fr in tb if fr.filename.startswith(src) or "/bpgen_" in fr.filename or "/genroot_" in fr.filename]
+    return tb, inside
+
+
+def harness_input(e):
+    """what the check was working on when the implementation raised: the local `inp` / `inp0` (the replayable input every
+    check builds before it calls the implementation) of the innermost harness frame that has one"""
+    t, best = e.__traceback__, None
+    here = os.path.dirname(os.path.abspath(__file__))
+    while t is not None:
+        fn = t.tb_frame.f_code.co_filename
+        if fn.startswith(here):
+            loc = t.tb_frame.f_locals
+            for name in ("inp", "inp0"):
+                if isinstance(loc.get(name), dict):
+                    best = (dict(loc[name]), "%s:%d" % (os.path.relpath(fn, here), t.tb_lineno))
+        t = t.tb_next
+    return best
+
+
+def record_impl_exception(chk, e, inside):
+    """an exception raised INSIDE the implementation while the harness handled a well-formed input is itself a failing
+    input when the harness knows what it was working on (no operation the checks perform on generated inputs raises on
+    the unchanged tree: every check runs clean there)"""
+    hi = harness_input(e)
+    if hi is None:
+        return
+    inp, where = hi
+    try:
+        json.dumps(inp)
+    except Exception:
+        inp = {k: repr(v)[:2000] for k, v in inp.items()}
+    chk.fail("implementation-raised:" + type(e).__name__, dict(inp, harness_site=where),
+             "%r at %s:%d" % (e, inside[-1].filename, inside[-1].lineno))
+
+
 def run(pid, tier, seed, replay):
     C.check_import_path()
     mod = importlib.import_module("props." + pid.lower())
@@ -60,7 +100,28 @@ def run(pid, tier, seed, replay):
     if replay:
         with open(replay if os.path.isabs(replay) else os.path.join(C.ROOT, replay)) as f:
             rp = json.load(f)
-        still = mod.replay(chk, rp)
+        if ((rp.get("failure") or {}).get("kind") or "").startswith("implementation-raised:"):
+            # generic: the quick run of the check is repeated; it still fails iff the implementation still raises into it
+            drv = None
+            try:
+                drv = C.Driver()
+            except Exception:
+                drv = None
+            still = False
+            try:
+                mod.run(C.Check(pid, "quick", rp.get("seed", 0)), drv)
+            except (C.Timeout, KeyboardInterrupt):
+                raise
+            except Exception as e:
+                tb, inside = impl_frames(e)
+                if not any(fr in inside for fr in tb[-6:]):
+                    raise
+                still = True
+            finally:
+                if drv:
+                    drv.close()
+        else:
+            still = mod.replay(chk, rp)
         print("replay %s: %s" % (replay, "STILL FAILS" if still else "passes"))
         return 1 if still else 0
 
@@ -117,11 +178,10 @@ def run(pid, tier, seed, replay):
         # longer checks on that input.  That is treated like any other broken correspondence — search for a
         # concrete failing input, report `no-failing-input-found` otherwise — not as an infrastructure error,
         # which would let a changed implementation escape just by crashing the check.
-        tb = traceback.extract_tb(e.__traceback__)
-        src = os.path.join(os.environ.get("VERIF_REPO", "/repo"), "src", "betterproto")
-        inside = [fr for fr in tb if fr.filename.startswith(src) or "/bpgen_" in fr.filename or "/genroot_" in fr.filename]
+        tb, inside = impl_frames(e)
         if not any(fr in inside for fr in tb[-6:]):
             raise
+        record_impl_exception(chk, e, inside)
         detail = "".join(traceback.format_exception(type(e), e, e.__traceback__))[-3000:]
         chk.disagree("harness-stopped-by-implementation-exception", "%s raised at %s:%d" % (type(e).__name__, inside[-1].filename, inside[-1].lineno),
                      "no exception on the unchanged tree", detail)
@@ -168,7 +228,18 @@ def run(pid, tier, seed, replay):
         print("note: %s; searching the implementation for a failing input" %
               ("proof obligations no longer check" if proof_broken else "model and implementation disagree"))
         before = len(chk.oracle_failures)
-        mod.search(chk)
+        try:
+            mod.search(chk)
+        except (C.Timeout, KeyboardInterrupt):
+            raise
+        except Exception as e:
+            # as above: an exception raised inside the implementation under test (or code generated from it) while the
+            # search runs is not an infrastructure error — the search ends here with what it found so far
+            tb, inside = impl_frames(e)
+            if not any(fr in inside for fr in tb[-6:]):
+                raise
+            record_impl_exception(chk, e, inside)
+            chk.notes.append("the failing-input search was cut short by an exception raised inside the implementation: " + repr(e)[:300])
         for fl in chk.oracle_failures[before:]:
             fid = mod.classify(fl, [e for e in known_entries if e.get("status") == "known"]) if hasattr(mod, "classify") else None
             if fid is None:
